@@ -142,6 +142,46 @@ func monC15(c *drv.Ctx) {
 		c15Raw(cs, lens, bin, []int{0, 0, 1, 7, 4096}[r.Intn(5)], r.Intn(5) == 0)
 		cs.Count(large >= 1, "rawr", lens, bin)
 	})
+	// (1b) ApplicationException through FastWriteNocopy / FastWrite, inside a larger buffer
+	c.Stage("exception", c.Pick(4000, 60000), false, func(cs *drv.Case) {
+		r := cs.R
+		msg := string(gen.Bytes(r, c15Lens[r.Intn(len(c15Lens))]))
+		tid := gen.I32(r)
+		e := thrift.NewApplicationException(tid, msg)
+		want := append(ref.EncString(ref.EncFieldBegin(nil, ref.STRING, 1), msg), ref.EncI32(ref.EncFieldBegin(nil, ref.I32, 2), tid)...)
+		want = append(want, 0)
+		bl := e.BLength()
+		pre, post := []int{0, 5}[r.Intn(2)], []int{0, 1, 64, 5000}[r.Intn(4)]
+		whole := window(pre+bl+post, []int{0, 1, 100}[r.Intn(3)])
+		for k := range whole {
+			whole[k] = 0xB7
+		}
+		dwr := &doubles.DirectWriter{}
+		off := e.FastWriteNocopy(whole[pre:], dwr)
+		got, ok := dwr.Splice(whole[pre:], off)
+		sum := off
+		for _, p := range dwr.Pieces {
+			sum += len(p)
+		}
+		cs.Desc = M{"msg_len": len(msg), "blength": bl, "bytes_before": pre, "bytes_after": post, "returned_offset": off, "pieces": len(dwr.Pieces), "remains": fmt.Sprint(dwr.Remains)}
+		if bl != len(want) || sum != bl || !ok || !bytes.Equal(got, want) {
+			cs.Fail("nocopy-stream-differs", M{"struct": "ApplicationException"}, M{"message": fmt.Sprintf("BLength %d, reference %d, offset+pieces %d, splice ok %v, stream equal %v", bl, len(want), sum, ok, ok && bytes.Equal(got, want))})
+			return
+		}
+		for k := pre + bl; k < len(whole); k++ {
+			if whole[k] != 0xB7 {
+				cs.Fail("nocopy-wrote-outside", M{"struct": "ApplicationException"}, M{"message": "bytes after the advertised length were modified"})
+				return
+			}
+		}
+		b2 := make([]byte, bl)
+		if n := e.FastWrite(b2); n != bl || !bytes.Equal(b2, want) {
+			cs.Fail("nocopy-nil-writer-differs", M{"struct": "ApplicationException"}, M{"message": "FastWrite differs from the reference encoding"})
+		}
+		cs.Count(len(msg) >= 4096, "exc", len(msg), pre, post)
+		cs.C.Obs("struct cases", 1)
+	})
+
 	// (2) Base / BaseResp through FastWriteNocopy with a recording direct writer
 	c.Stage("structs", c.Pick(50000, 600000), false, func(cs *drv.Case) {
 		r := cs.R
